@@ -104,6 +104,8 @@ class AffineParser(BaseParser):
         except NotImplementedError as e:
             # e.g. semi-affine expressions, which are not supported yet
             raise ParseError(binop.span, str(e)) from e
+        except ZeroDivisionError as e:
+            raise ParseError(binop.span, "division by zero in affine expression") from e
 
     def _parse_binop_rhs(
         self,
